@@ -19,7 +19,7 @@ class C04(Prop):
             "'may only shorten after a failed solve' clause is exercised; 40% adaptive methods.  Observable: the exact h handed to every step attempt "
             "(seam on the integrator's step) and the recorded grid.  Twin worlds for the relational clause on autonomous problems: the same run with the "
             "span shifted by +-2^k, and the time-reflected problem integrated backward.  Non-trivial = at least one recorded step")
-    assumptions = ["shift / reflection: fixed-step methods agree to 256*n*eps*max|y|*amplification, adaptive ones to 200*(atol+rtol*|y|)*n*amplification",
+    assumptions = ["shift / reflection: fixed-step methods agree to 256*n*eps*max|y|*amplification, adaptive ones to 2*(atol+rtol*|y|)*n*amplification plus the time resolution of the shifted axis (calibrated: largest ratio seen 0.04)",
                    "runs in which a callback assigns dt are excluded (user intervention)", "Richardson wrappers are adaptive: only the relational clause applies"]
 
     def monitors(self, scn):
@@ -81,7 +81,10 @@ class C04(Prop):
                                           "detail": "%s twin differs by %.3e (> %.3e) for fixed-step %s (%d vs %d rows)" % (twin, err, bound, scn["system"]["method"], a["n"], b["n"])})
         else:
             integ = w.system.integrator
-            bound = 200 * ((float(integ.atol) + float(integ.rtol) * ymax) * n * amp + 64 * eps * ymax * n)
+            # calibrated: shifted / reflected adaptive runs take the same step sequence up to rounding (largest ratio seen on the unchanged
+            # tree 0.04 of this bound over 20000 cases); the rounding of t + c_i h on the shifted axis enters through the time resolution
+            tres = eps * max(abs(float(b["t"][-1])), abs(float(b["t"][0])), 1.0)
+            bound = 2 * ((float(integ.atol) + float(integ.rtol) * ymax) * n * amp + 64 * eps * ymax * n) + 64 * tres * w.problem.lipschitz(k) * max(ymax, 1e-300) * amp * n
             bound += 8 * 2.3e-16 * max(abs(float(b["t"][-1])), abs(float(b["t"][0])), 1.0) * w.problem.lipschitz(k) * max(ymax, 1e-300) * amp
             name = "C04.%s_tolerance_level" % twin
             res["ratios"][name] = max(res["ratios"].get(name, 0), err / bound)
